@@ -71,7 +71,8 @@ func init() {
 			"golang.org/x/net/html is the trusted parser on both sides, with the engine's own context rule (document iff the source contains </html>, else body fragment)",
 			"generated static HTML is kept only if parse(x) == parse(render(parse(x))) (no parser fix-ups), so a difference after rendering is the engine's doing",
 			"full documents are judged through the file entry points only: the string entry points parse every input as a body fragment by design",
-			"text is compared per text node after trimming and collapsing whitespace (also inside pre/textarea); comments are ignored; attribute values are generated without leading/trailing blanks (the engine trims them; insignificant whitespace is exempt)",
+			"'insignificant whitespace' is read as: white space at the edges of a text node, white-space-only text nodes, and the collapsing of runs. Text is therefore compared per text node after trimming and collapsing; the text of every <pre> is compared exactly in addition; comments are ignored. The engine's serialiser is a pretty-printer that puts every child on a line of its own, so `a<span>b</span>c` comes out as `a <span>b</span> c`: the DOM is the same under this reading, although a browser shows a space there - that white space is counted as formatting, not as text",
+			"attribute values are compared exactly (blanks at their ends and the kind of each white-space character included)",
 		},
 		MinNonTrivial: func(ctx core.Ctx) int { return 500 },
 	})
@@ -300,6 +301,12 @@ func (g *c02Gen) block(depth int) string {
 	case 9:
 		return fmt.Sprintf("<textarea%s>%s</textarea>", g.attrs("name"), g.text())
 	case 10:
+		switch g.r.Intn(3) {
+		case 0: // markup two levels deep: white space stays significant all the way down
+			return fmt.Sprintf("<pre%s><code><span>%s</span> <span>%s</span>()\n  <b><i>%s</i> %s</b></code>\n%s</pre>", g.attrs(), g.text(), g.text(), g.text(), g.text(), g.text())
+		case 1:
+			return fmt.Sprintf("<pre%s>%s <em>%s</em>\n    %s</pre>", g.attrs(), g.text(), g.text(), g.text())
+		}
 		return fmt.Sprintf("<pre%s>%s\n  %s</pre>", g.attrs(), g.text(), g.text())
 	case 11:
 		return fmt.Sprintf(`<svg%s viewBox="0 0 10 10"><circle cx="5" cy="5" r="4"></circle><path d="M0 0L1 1" fill="%s"></path><text>%s</text></svg>`, g.attrs(), g.attrVal(), g.text())
@@ -451,6 +458,21 @@ func (p *c02) checkStatic(o *core.Obs, c c02Case, src string, doc bool, part str
 			cls := oracle.ElementClass(d.Where)
 			o.Fail(c, fmt.Sprintf("%s/%s/%s/%s", part, e.name, d.Kind, cls), "parse(output) differs from parse(template): %s\nsource: %s\noutput: %s", d, clip(src, 600), clip(out, 600))
 			break
+		}
+		if d == nil && strings.Contains(src, "<pre") {
+			// white space is significant inside <pre>, at every depth: the text of
+			// each <pre> must come back exactly (the DOM comparison above collapses it)
+			wp, _ := c20PreTexts(src)
+			gp, _ := c20PreTexts(out)
+			if len(wp) == len(gp) {
+				for k := range wp {
+					if wp[k] != gp[k] {
+						o.Fail(c, fmt.Sprintf("%s/%s/pre-whitespace", part, e.name), "text of <pre> #%d differs in white space: template %q, output %q\nsource: %s\noutput: %s", k, wp[k], gp[k], clip(src, 600), clip(out, 600))
+						break
+					}
+				}
+				o.Cell(part + "/pre-text-compared-exactly")
+			}
 		}
 		o.Cell(part + "/" + e.name)
 	}
